@@ -116,7 +116,7 @@ class Ctx:
         wall = time.time() - self.t0
         # vanished anchors
         for r in self.rules.values():
-            if r.instances < r.min_instances and not getattr(self, "replay", None):
+            if r.instances < r.min_instances and not getattr(self, "replay", None) and not (getattr(self, "skip_k", False) and r.instances == 0):
                 raise AnalysisError(
                     f"rule {r.name}: only {r.instances} instances examined, confirmed minimum is "
                     f"{r.min_instances} (an anchor vanished or the extractor no longer matches)"
